@@ -9,8 +9,10 @@ if [ "$1" = merge ]; then
 python3 - <<'PY'
 import json,glob,subprocess,sys
 res=[]
-for f in sorted(glob.glob('/dev/shm/sens-*.json')): res+=json.load(open(f))['results']
-res.sort(key=lambda r:r['id'])
+byid={}
+for f in sorted(glob.glob('/dev/shm/sens-*.json')):
+    for r in json.load(open(f))['results']: byid[r['id']]=r
+res=sorted(byid.values(),key=lambda r:r['id'])
 bud=json.load(open(sorted(glob.glob('/dev/shm/sens-*.json'))[0]))['budget_s_per_check']
 ok=all(r['detected'] is not False for r in res)
 json.dump({'tree':subprocess.run(['git','-C','/repo','log','--format=%h','-1'],capture_output=True,text=True).stdout.strip(),'budget_s_per_check':bud,'seeded_changes':len(res),'detected':sum(1 for r in res if r['detected']),'outside_property':sum(1 for r in res if r['detected'] is None),'not_detected':[r['id'] for r in res if r['detected'] is False],'results':res},open('/verif/evidence/sensitivity.json','w'),indent=1)
@@ -29,6 +31,9 @@ outp='/dev/shm/sens-%d.json'%sk if shard else '/verif/evidence/sensitivity.json'
 # SAMPLE=n: of the changes of the earlier waves only every n-th is run (the two newest waves always)
 sample=int(os.environ.get('SAMPLE','1'))
 ids=[d for i,d in enumerate(sorted(os.listdir('/verif/seeded'))) if d.startswith(('w7','w8')) or i%sample==0]
+only=os.environ.get('ONLY')  # ONLY=<id>[,<id>...]: re-run just these (writes /dev/shm/sens-9.json; "merge" lets later files win)
+if only:
+    ids=[d for d in ids if d in only.split(',')] or only.split(','); sk,sn=0,1; outp='/dev/shm/sens-9.json'
 for di,d in enumerate(ids):
     if di%sn!=sk: continue
     mp='/verif/seeded/%s/meta.json'%d
